@@ -37,6 +37,7 @@ void frgv_force(A_opt &o, A_opti &oi, A_var &v, A_box &b, A_tup &t, A_tupr &tr, 
 	(void)(o == tk); (void)(o != tk);
 	tracked *q = frg::construct<tracked>(a, x);
 	frg::destruct(a, q);
+	{ A_exp e1(err_t::fail); A_exp e2(tk); e1 = e2; e1 = A_exp(err_t::other); (void)e1.value(); (void)bool(e1); }
 	tracked *qn = frg::construct_n<tracked>(a, size_t(3));
 	frg::destruct_n(a, qn, size_t(3));
 }
